@@ -58,9 +58,10 @@ package termscaler
 //@   pure
 //@   ensures 0 <= result && result <= buckets - 1
 //@ func LengthVal
-//@   requires maxLen >= 0 && maxLen <= 1000000000 && 0.0 <= unitVal && unitVal <= 1.0
+//@   requires -1000000000 <= maxLen && maxLen <= 1000000000 && 0.0 <= unitVal && unitVal <= 1.0
 //@   pure
-//@   ensures 0 <= result && result <= maxLen
+//@   ensures maxLen >= 0 ==> 0 <= result && result <= maxLen
+//@   ensures maxLen < 0 ==> maxLen <= result && result <= 0
 //@ func (Scaler).Bucket
 //@   requires buckets >= 1 && buckets <= 1000000
 //@   pure
